@@ -3,7 +3,7 @@
    nat, positive, N, Z stay Coq datatypes.  No Extract Constant directives.
    Run coqc with the ocaml/ directory as working directory (files land in the cwd). *)
 From Coq Require Import Extraction ExtrOcamlBasic.
-From TV Require Import Base Index AP Iter Mult Mem Spec Guards Run Ops Reduce Shapeops Linalg Pool RunZ Serial Masked Native.
+From TV Require Import Base Index AP Iter Mult Mem Spec Guards Run Ops Reduce Shapeops Linalg Pool RunZ Serial Masked Native DotN.
 Extraction Language OCaml.
 Extraction "model.ml"
   size dot rank_rm rank_cm unrank coords inboxb
@@ -14,6 +14,7 @@ Extraction "model.ml"
   new_mult mult_next mult_reset hash_ints
   get_t is_materializable requires_iterator is_cm is_nc is_tr
   guard_op flag_soundb meta_inv_obs guard_slice
+  zdot_nd zdot_nd_full zdot_nd_spec zdot_nd_spec_incr dot_nd_dispatch dot_nd_reuse_plain
   step_model step_spec zstep_model zstep_spec zguard zreduce_axes_after
   empty_pstate pstep_T pstep_UT pstep_transpose p_slices obs_model inv_model obs_spec ntens_model ntens_spec empty_store empty_sstate
   shape_concat shape_repeat set_window logical
